@@ -228,5 +228,8 @@ pub open spec fn unmoved(a: Parser, b: Parser) -> bool {
 }
 /// the cursor moved forward by at least one raw token (=> the remaining input strictly decreased)
 pub open spec fn adv(a: Parser, b: Parser) -> bool { b.pos > a.pos }
+/// C05: the position at which ONE `index_operator` call started at this token state stops (uninterpreted; see the AP
+/// assumption in index_operator)
+pub uninterp spec fn io_end(st: PState) -> nat;
 /// neither at the end of input nor at a closing brace: the states in which a statement must consume
 pub open spec fn live(st: PState) -> bool { cur(st) != SyntaxKind::EOF && cur(st) != SyntaxKind::R_CURLY }
